@@ -41,6 +41,7 @@ type cField struct {
 	name     string
 	req, nul bool
 	ty       *cTy
+	dflt     *J // schema default of an optional, non-nullable integer / string / boolean member
 }
 
 var cNames = []string{"a", "b", "c", "id", "n", "tag", "éz", "h i", "x-y", "k_1", "zed", "Q", "日本w", "v2", "d.e", "f\"g"}
@@ -77,8 +78,9 @@ func genCTyK(rng *lp.Rand, depth int, wantObj bool) *cTy {
 				deco(t.item)
 			}
 		case "obj":
-			for _, f := range t.fields {
-				deco(f.ty)
+			for i := range t.fields {
+				t.fields[i].dflt = nil
+				deco(t.fields[i].ty)
 			}
 		}
 	}
@@ -113,7 +115,18 @@ func genCTy(rng *lp.Rand, depth int, wantObj bool) *cTy {
 			continue
 		}
 		seen[name] = true
-		t.fields = append(t.fields, cField{name: name, req: rng.Bool(), nul: rng.Chance(40), ty: genCTy(rng, depth-1, false)})
+		f := cField{name: name, req: rng.Bool(), nul: rng.Chance(40), ty: genCTy(rng, depth-1, false)}
+		if !f.req && !f.nul && rng.Chance(40) {
+			switch f.ty.kind {
+			case "int":
+				f.dflt = &J{kind: "num", raw: lp.Pick(rng, []string{"0", "7", "-3", "9223372036854775807"})}
+			case "str":
+				f.dflt = &J{kind: "str", s: lp.Pick(rng, []string{"", "dflt", "é \"q\""})}
+			case "bool":
+				f.dflt = &J{kind: "bool", b: rng.Bool()}
+			}
+		}
+		t.fields = append(t.fields, f)
 	}
 	// the document is rendered with sorted keys, which is the declaration order the generator sees
 	sort.Slice(t.fields, func(i, j int) bool { return t.fields[i].name < t.fields[j].name })
@@ -162,7 +175,18 @@ func (t *cTy) schema(nullable bool) map[string]any {
 		props := map[string]any{}
 		var req []string
 		for _, f := range t.fields {
-			props[f.name] = f.ty.schema(f.nul)
+			ps := f.ty.schema(f.nul)
+			if f.dflt != nil {
+				switch f.dflt.kind {
+				case "num":
+					ps["default"] = json.Number(f.dflt.raw)
+				case "str":
+					ps["default"] = f.dflt.s
+				case "bool":
+					ps["default"] = f.dflt.b
+				}
+			}
+			props[f.name] = ps
 			if f.req {
 				req = append(req, f.name)
 			}
@@ -213,7 +237,12 @@ func (t *cTy) toks(sb *strings.Builder) {
 	default:
 		fmt.Fprintf(sb, "O%d:%d ", len(t.fields), b2i(t.closed))
 		for _, f := range t.fields {
-			fmt.Fprintf(sb, "F%d%d%x ", b2i(f.req), b2i(f.nul), f.name)
+			if f.dflt != nil {
+				fmt.Fprintf(sb, "F2%d%x ", b2i(f.nul), f.name)
+				jtoks(f.dflt, sb)
+			} else {
+				fmt.Fprintf(sb, "F%d%d%x ", b2i(f.req), b2i(f.nul), f.name)
+			}
 			f.ty.toks(sb)
 		}
 	}
@@ -502,10 +531,16 @@ func (t *cTy) project(j *J) *J {
 	case t.kind == "obj":
 		o := &J{kind: "obj"}
 		for _, f := range t.fields {
+			found := false
 			for i, k := range j.keys {
 				if k == f.name {
+					found = true
 					o.keys, o.vals = append(o.keys, k), append(o.vals, f.ty.project(j.vals[i]))
 				}
+			}
+			if !found && f.dflt != nil {
+				// an absent member that has a schema default arrives as that default (and is written back)
+				o.keys, o.vals = append(o.keys, f.name), append(o.vals, f.dflt)
 			}
 		}
 		return o
